@@ -17,6 +17,9 @@ class World {
   constructor (seed, registry, limits) {
     this.seed = seed >>> 0
     this.ops = registry.ops
+    // programs with an operation in a known-finding context: an intrusion that cannot be attributed to
+    // a probe site (the clobbering value is not a token, e.g. a method function) is keyed apart
+    this.hasKnownCtx = Object.values(registry.ops).some(o => KNOWN_CTX.has(o.label))
     // site -> operations containing it, innermost first
     this.siteOps = {}
     for (const id of Object.keys(registry.ops)) {
@@ -300,12 +303,16 @@ class World {
       const want = acc ? c.leaves.slice(1) : c.leaves
       if (seq.length === want.length && seq.every((s, i) => s === want[i])) { matched = { c, acc }; break }
     }
+    if (!matched && cands.some(c => c.incomplete)) { this.stat('hook-calls-with-incomplete-registry'); return res }
     if (!matched) {
       // which token does not belong? the first one outside the innermost candidate's leaves
-      const inner = cands[0]
-      const bad = inner ? toks.find(t => !inner.leaves.includes(t.site) && !(inner.leaves[0] === 'ACC' && t.idx === 0)) : undefined
-      if (undef) this.violate('H3', keyCtx(), `an operand is undefined where a value is due: ${describe()}`)
-      else this.violate('H2', keyCtx(bad ? bad.site : undefined), `operands do not form the operand tuple of any generated operation (sites ${toks.map(t => t.site).join(',')}; expected one of ${cands.map(c => '[' + c.leaves.join(',') + ']').join(' ')}): ${describe()}`)
+      // a token intrudes if no candidate operation (innermost to outermost) has its site among its leaves
+      const union = new Set(cands.flatMap(c => c.leaves))
+      const anyAcc = cands.some(c => c.leaves[0] === 'ACC')
+      const bad = cands.length ? toks.find(t => !union.has(t.site) && !(anyAcc && t.idx === 0)) : undefined
+      const unattributed = !bad && this.hasKnownCtx && !KNOWN_CTX.has(victimLabel)
+      if (undef) this.violate('H3', unattributed ? 'unattributed-intruder:with-known-ctx' : keyCtx(), `an operand is undefined where a value is due: ${describe()}`)
+      else this.violate('H2', unattributed ? 'unattributed-intruder:with-known-ctx' : keyCtx(bad ? bad.site : undefined), `operands do not form the operand tuple of any generated operation (sites ${toks.map(t => t.site).join(',')}; expected one of ${cands.map(c => '[' + c.leaves.join(',') + ']').join(' ')}): ${describe()}`)
       return res
     }
     for (const t of toks) {
